@@ -394,11 +394,8 @@ def check_one(ctx, T, fmt, root, subdir, filtered, destname=None, oracle=True):
     if status == "raised":
         e = res
         ctx.count("raised:" + type(e).__name__)
-        fam = None
+        fam = None      # no export may raise (the ContentFilterTree crash on symlinks is fixed: plain violation if it returns)
         selected_kinds = {v[0][0] for v in exp.values()} | ({"l"} if any(n.endswith(".lnk") for n in exp) and cls == "zip" else set())
-        has_link = any(v[0][0] == "l" for v in expected_members(ents, "tar", eff_root, subdir, None, False).values())
-        if filtered and isinstance(e, NotImplementedError) and has_link and "get_symlink_target" in str(e):
-            fam = "filters-symlink-notimplemented"
         if oracle and subdir != "/":
             _violation(ctx, case, "export raised %s: %s (selection has kinds %s)" % (type(e).__name__, str(e)[:120], sorted(selected_kinds)),
                        family=fam)
@@ -419,10 +416,6 @@ def check_one(ctx, T, fmt, root, subdir, filtered, destname=None, oracle=True):
                 what = "member %r (%s) of the tree is missing from the export" % (n, e_[0][0])
             elif not e_:
                 what = "export contains %r which is not in the selected tree" % (n,)
-                # the member is a path special to the format (it would be selected if
-                # nothing were special) and the tree is the filtered view
-                if filtered and n in expected_members(ents, cls, eff_root, subdir, None, filtered):
-                    fam = "filters-special-path-exported"
             elif len(e_) > 1 or len(g_) > 1:
                 what = "member name %r occurs %d times in the export (%d tree entries map to it)" % (n, len(g_), len(e_))
                 if cls == "zip" and n.endswith(".lnk") and len(e_) == len(g_) and sorted(e_) == sorted(g_):
@@ -431,8 +424,6 @@ def check_one(ctx, T, fmt, root, subdir, filtered, destname=None, oracle=True):
                 (ek, ec, ex_, et), (gk, gc, gx, gt) = e_[0], g_[0]
                 if (ek, ec, et) == (gk, gc, gt) and ex_ != gx:
                     what = "executable bit of %r is %s in the export, %s in the tree" % (n, gx, ex_)
-                    if cls == "zip" and ex_ and not gx:
-                        fam = "zip-exec-bit-dropped"
                 elif ek != gk:
                     what = "%r is exported as kind %s, the tree has %s" % (n, gk, ek)
                 elif ec != gc:
